@@ -30,7 +30,7 @@ CFG = {
     "go_cmd": "c16",
     "stages": ["go:gen", "go:impl", "lean:judge"],
     "pregen": pregen,
-    "theorems": [T + n for n in ["getStartEnd_partition", "C16_geom", "C16_geom_unsupported", "C16_order", "C16_order_any_fields", "C16_order_schedule", "C16_order_struct", "C16_decodeRow_assigned", "C16_order_encode",
+    "theorems": [T + n for n in ["getStartEnd_partition", "C16_geom", "C16_geom_unsupported", "C16_order", "C16_order_any_fields", "C16_order_schedule", "C16_order_struct", "C16_order_struct_written", "C16_decodeRow_assigned", "C16_order_encode",
                                  "C16_int", "C16_int_width", "C16_string", "C16_string_converse", "C16_string_iff", "C16_string_violations", "C16_float", "C16_float_render",
                                  "C16_match", "C16_assigned", "C16_match_none", "C16_match_fields",
                                  "C16_name_roundtrip", "C16_columns", "C16_match_self", "C16_struct_roundtrip",
